@@ -48,6 +48,11 @@ def families(tier):
     add("a_p_dfix_b", D["a_p_dfix_b"], 3, 5)
     add("a_p_bc", D["a_p_bc"], 0, 4)
     add("ab_p_c", D["ab_p_c"], 0, 4)
+    add("a0_a_p_b_rev", D["a0_a_p_b_rev"], 3, 4)
+    add("a0_a_p_b", D["a0_a_p_b"], 0, 4)
+    add("two_pulls_parallel", D["two_pulls_parallel"], 0, 4)
+    add("tap_shared_dfix", topos.TAPS["tap_shared_dfix"], 0, 4)
+    add("tap_shared_scale", topos.TAPS["tap_shared_scale"], 3, 4)
     add("abc", D["abc"], 0, 5)
     add("cba_listed", D["cba_listed"], 0, 5)
     add("fan_in", D["fan_in"], 0, 5)
